@@ -43,7 +43,7 @@ StartsWith(s, p) == Len(p) <= Len(s) /\ SubSeq(s, 1, Len(p)) = p
 EndsWith(s, p)   == Len(p) <= Len(s) /\ SubSeq(s, Len(s) - Len(p) + 1, Len(s)) = p
 StartsWithAt(s, i, p) ==   \* p occurs in s at 1-based position i
     i + Len(p) - 1 <= Len(s) /\ SubSeq(s, i, i + Len(p) - 1) = p
-Contains(s, p) == \E i \in 1..(Len(s) - Len(p) + 1) : StartsWithAt(s, i, p)
+HasSub(s, p) == \E i \in 1..(Len(s) - Len(p) + 1) : StartsWithAt(s, i, p)
 Has(s, c) == \E i \in 1..Len(s) : s[i] = c
 
 \* positions (1-based) of code c in s, ascending
